@@ -228,6 +228,10 @@ type EqReq struct {
 type EqCase struct {
 	Rule route.MethodRules `json:"rule"`
 	Reqs []EqReq           `json:"reqs"`
+	// Annot: the selected method additionally carries this annotation of its own, which occupies
+	// the same verb and path position as Rule.Bindings[0] but maps differently (other captured
+	// field, body or response_body). The configured rule must still be bound and behave as written.
+	Annot *route.Binding `json:"annot,omitempty"`
 }
 
 type eqOutcome struct {
@@ -268,7 +272,11 @@ func CheckEq(c EqCase) ([]evid.Violation, int) {
 	rule := proto.Clone(c.Rule.HTTPRule()).(*annotations.HttpRule)
 	rule.Selector = "rt.Svc0.Mth"
 	cfg := &serviceconfig.Service{Http: &annotations.Http{Rules: []*annotations.HttpRule{rule}}}
-	b := route.BuildWorld(route.World(rs, false), 1, nil, larking.ServiceConfigOption(cfg))
+	cfgWorld := route.World(rs, false)
+	if c.Annot != nil {
+		cfgWorld = route.World(route.RuleSet{{Bindings: []route.Binding{*c.Annot}}}, true)
+	}
+	b := route.BuildWorld(cfgWorld, 1, nil, larking.ServiceConfigOption(cfg))
 	var vs []evid.Violation
 	if a.Accepted[0] != b.Accepted[0] || a.Panic != nil || b.Panic != nil {
 		vs = append(vs, evid.V("equivalence-registration", "", "rule %v: annotation accepted=%v (%s) config accepted=%v (%s)", c.Rule, a.Accepted[0], a.Errs[0], b.Accepted[0], b.Errs[0]))
@@ -308,6 +316,29 @@ func TestPropEquiv(t *testing.T) {
 				Body: rapid.SampledFrom([]string{"", "*", "sub"}).Draw(t, "body"),
 				Resp: rapid.SampledFrom([]string{"", "", "sub"}).Draw(t, "resp"),
 			})
+		}
+		if rapid.IntRange(0, 3).Draw(t, "override") == 0 {
+			a := c.Rule.Bindings[0]
+			changed := false
+			for _, f := range route.StringFields {
+				if strings.Contains(a.Tmpl, "{"+f+"}") || strings.Contains(a.Tmpl, "{"+f+"=") {
+					g := rapid.SampledFrom(route.StringFields).Draw(t, "ofield")
+					if g != f && !strings.Contains(a.Tmpl, "{"+g+"}") && !strings.Contains(a.Tmpl, "{"+g+"=") {
+						a.Tmpl = strings.Replace(strings.Replace(a.Tmpl, "{"+f+"}", "{"+g+"}", 1), "{"+f+"=", "{"+g+"=", 1)
+						changed = true
+					}
+					break
+				}
+			}
+			if nb := rapid.SampledFrom([]string{"", "*", "sub"}).Draw(t, "obody"); nb != a.Body {
+				a.Body, changed = nb, true
+			}
+			if nr := rapid.SampledFrom([]string{"", "sub"}).Draw(t, "oresp"); nr != a.Resp {
+				a.Resp, changed = nr, true
+			}
+			if changed {
+				c.Annot = &a
+			}
 		}
 		hasVarOrBody := false
 		for _, b := range c.Rule.Bindings {
@@ -355,7 +386,11 @@ func TestPropEquiv(t *testing.T) {
 			}
 			key = "eq|" + strings.Join(shapes, ";")
 		}
-		evid.Eval(key, "equivalence")
+		if c.Annot != nil {
+			evid.Eval(key, "equivalence", "config-rule-overrides-own-annotation")
+		} else {
+			evid.Eval(key, "equivalence")
+		}
 		evid.Sample("equivalence", c)
 		evid.Report(t, prop, map[string]any{"kind": "equiv", "eq": c}, vs)
 	})
